@@ -210,6 +210,22 @@ CentreGG(mode, C) ==
 PoissonMean(pts, i) == LET B == {a \in Act(pts) : Defd(Z(pts, a, i))}
                        IN <<Sum(LAMBDA a : Z(pts, a, i), B), Cardinality(B)>>
 
+(* BY-SAMPLE OPTION (flag_sample; forced by the library for the covariogram on  *)
+(* scattered data).  The library documents it as "calculate the variogram per   *)
+(* sample" and nothing more; which average of per-sample variograms is meant    *)
+(* (and what sw counts) is not defined anywhere.  The property text covers:     *)
+(* the pairs of a lag are those whose separation falls in the lag and           *)
+(* direction, and the reported values are averages over those pairs.  Hence     *)
+(* the law imposed on ANY by-sample estimator (fields n, hh, lo, hi of the      *)
+(* slots above):                                                                *)
+(*   - the lag is non-empty (sw > 0) iff n > 0, in THAT direction;              *)
+(*   - hh lies between the smallest and the largest separation of the pairs;    *)
+(*   - gg (gg/sw for the covariogram) lies between lo and hi, the smallest and  *)
+(*     largest pair value (lo/2, hi/2 for the variogram);                       *)
+(*   - the value at h = 0 is the one of the ordinary algorithm.                 *)
+BySampleBounds(S, halve) == [empty |-> S.n = 0, hh2 |-> {g[1] : g \in S.hh},
+                             lo |-> <<S.lo, IF halve THEN 2 ELSE 1>>, hi |-> <<S.hi, IF halve THEN 2 ELSE 1>>]
+
 -----------------------------------------------------------------------------
 (* Grid-specialised definitions (data given on the nodes of a regular grid; *)
 (* a direction is a grid increment g; lag k = separation k*g exactly,       *)
